@@ -28,7 +28,8 @@ RULE = ("every schedule with <= B pre-emptions (one player: B=2 quick, 3 thoroug
 TRUSTED = [
     "hand-written Lean transition system ALV/Model/C17.lean of AudioIO.play/close/thread_finished and "
     "AudioThread.run/stop/pause/play (modelled, not verified); atomicity = one threading/backend operation plus the "
-    "local code up to the next one",
+    "local code up to the next one; the variant of stop() (Cfg.fixed) is probed from the source under test — on the "
+    "repaired source the liveness theorems that apply are the ones with cfg.fixed = true",
     "harness/sched.py (deterministic scheduler in place of `threading`) and harness/fakeaudio.py (fake pyaudio/_portaudio "
     "with the PortAudio stream protocol); CPython `threading` semantics assumed, attribute reads/writes between two "
     "yield points are taken as atomic (GIL)",
@@ -36,11 +37,38 @@ TRUSTED = [
 ASSUMPTIONS = [
     "one control thread issues play/pause/play/stop/join/close; players are AudioThread objects created by AudioIO.play",
     "audio iterables are finite lists, dfmt='f', nchannels=1, no recording streams, api=None",
-    "liveness theorems assume a maximal run (weak fairness is implied: every run of the model is finite)",
+    "liveness is proved for maximal runs of the model WITHOUT a fairness assumption: every step of every thread "
+    "decreases a ranking function (theorem rank_decreases), so every schedule is finite (steps_bounded, bound "
+    "1 + sum over calls: play 27+8*chunks, pause/play/stop 4, join 2, close 12) and can be continued to a terminal "
+    "state (maximal_run_exists)",
+    "liveness theorems (Lean, all schedules, any number of players, any chunk counts, any script): terminal_states "
+    "(a run only ends with the script finished or joining a player blocked in go.wait() on a cleared event), "
+    "close_never_blocks_fixed / close_returns_fixed / shutdown_fixed (repaired stop(), wait=False: close returns whatever "
+    "was paused; scripts without join — a join of a paused player blocks by the script's own doing, on the real code too), "
+    "close_returns_no_pause / shutdown_no_pause (no pause calls: both variants of stop(), wait true/false, joins allowed), "
+    "close_returns_wait(_checked) / shutdown_wait(_checked) (wait=True, repaired stop(): no player still in its loop is "
+    "paused when close is called — decidable from the script alone: closeUnpaused); afterwards (shutdown): close returned, "
+    "all streams closed, terminate called exactly once, no player alive at the end of the run (at the instant close returns "
+    "a player may still have its last lock release to do: known finding D15, theorem alive_after_close_reachable); "
+    "wait_close_delivers_all (wait=True, no stop() call in the script: when close has returned every stream received its "
+    "whole chunk sequence)",
+    "NOT claimed: close(wait=True) with a player paused at that time blocks for ever (known finding D10b; model-level "
+    "theorems deadlock_pause_close_wait, deadlock_pause_close_wait_fixed); the tie still carries liveness on the "
+    "explored schedules of the real code (outcome done/deadlock compared step by step with the model)",
 ]
 MANIFEST = {
-    "technique": "interleaving transition system in Lean 4 with inductive invariants over all schedules; "
-                 "step-by-step bisimulation against the real code under a deterministic scheduler",
+    "text": "Lean 4 theorems about a hand-written interleaving transition system of AudioIO/AudioThread, for ALL schedules, "
+            "any number of players, chunk counts and control scripts: safety (delivery, terminate once, closed after close, "
+            "backend protocol, lock order) AND liveness (every run is finite by a ranking function; close returns and "
+            "everything is shut: shutdown_fixed, shutdown_no_pause, shutdown_wait; every terminal state characterised: "
+            "terminal_states); tied to /repo by a step-by-step bisimulation check of the unmodified lazy_io.py source "
+            "under a deterministic scheduler on every check",
+    "note": "Trusted: Lean kernel, axioms propext/Classical.choice/Quot.sound, harness/sched.py + harness/fakeaudio.py "
+            "(CPython threading semantics assumed); the model is hand written and validated against the code step by "
+            "step along every explored schedule, not extracted from it.  No liveness statement is left PENDING; the "
+            "wait=True-with-a-paused-player deadlock (D10b) is a known finding excluded by an explicit hypothesis.",
+    "technique": "interleaving transition system in Lean 4 with inductive invariants over all schedules and a ranking "
+                 "function for termination; step-by-step bisimulation against the real code under a deterministic scheduler",
 }
 
 BUDGET = 300
